@@ -70,6 +70,10 @@ def read_group_lock_filename(sample):
     return sample.read_group_file + "_lock"
 
 
+def own_progress_prefix(sample, dump_filename):
+    return os.path.join(sample.aux_dir, os.path.basename(dump_filename))
+
+
 def clean_locks(chr_ids, base_name, fname_function):
     for chr_id in chr_ids:
         fname = fname_function(base_name, chr_id)
@@ -237,9 +241,12 @@ def construct_models_in_parallel(sample, chr_id, dump_filename, args, read_group
         list_size = read_int(multimap_loader)
 
     chr_dump_file = dump_filename + "_" + chr_id
-    lock_file = reads_processed_lock_file_name(dump_filename, chr_id)
-    read_stat_file = "{}_read_stat".format(chr_dump_file)
-    transcript_stat_file = "{}_transcript_stat".format(chr_dump_file)
+    # progress mark and statistics belong to this run: they are kept in its own folder,
+    # also when the assignments are read from the folder of another run (--read_assignments)
+    progress_file = own_progress_prefix(sample, dump_filename)
+    lock_file = reads_processed_lock_file_name(progress_file, chr_id)
+    read_stat_file = "{}_{}_read_stat".format(progress_file, chr_id)
+    transcript_stat_file = "{}_{}_transcript_stat".format(progress_file, chr_id)
 
     if os.path.exists(lock_file) and args.resume:
         logger.info("Processed assignments from chromosome " + chr_id + " detected")
@@ -753,7 +760,7 @@ class DatasetProcessor:
                     transcript_stat_counter.stats_dict[k] += v
 
         # merging consumes the per-chromosome files: if the run is interrupted from now on, they have to be generated again
-        clean_locks(chr_ids, dump_filename, reads_processed_lock_file_name)
+        clean_locks(chr_ids, own_progress_prefix(sample, dump_filename), reads_processed_lock_file_name)
 
         if not self.args.no_model_construction:
             self.merge_transcript_models(sample.prefix, aggregator, chr_ids, gff_printer)
